@@ -41,16 +41,16 @@ var c14Alphabet = []c14sym{
 var c14Wait = c14sym{"WaitExpiry", "wait", nil}
 
 type c14ctx struct {
-	c       *CheckCtx
-	mu      sync.Mutex
-	seqs    int
-	ops     int
-	states  map[string]bool
-	samples []any
-	watchSeqs int
-	events    int
-	expirySlow int
-	watchFails int
+	c              *CheckCtx
+	mu             sync.Mutex
+	seqs           int
+	ops            int
+	states         map[string]bool
+	samples        []any
+	watchSeqs      int
+	events         int
+	expirySlow     int
+	watchFails     int
 	watchersOpened int
 }
 
@@ -567,8 +567,8 @@ func c14Direct(c *CheckCtx) {
 
 func init() {
 	props["C14"] = &propDef{
-		Level: "model_checking",
-		Rule:  "all operation sequences up to depth D over {Create(a|empty|4KiB), Update(v, latest) for three values, Update(stale), Update(0), Update(latest+1), Get, Delete} executed through the library's real adapter on a fresh key of a memory bucket of an embedded nats-server and, in lock-step, on the reference store: identical outcome, revision, value and error text at every step; expiry sequences (one WaitExpiry at every position, bucket MaxAge 150ms) up to depth E; watchers opened before every position of every sequence up to depth W with two consumer styles (Updates() once / before every receive): received events equal the model's list, adapter goroutines gone after Stop. states = distinct (model state of the key, position), transitions = operations executed on both sides, traces_validated_against_impl = sequences replayed on the real adapter (all)",
+		Level:  "model_checking",
+		Rule:   "all operation sequences up to depth D over {Create(a|empty|4KiB), Update(v, latest) for three values, Update(stale), Update(0), Update(latest+1), Get, Delete} executed through the library's real adapter on a fresh key of a memory bucket of an embedded nats-server and, in lock-step, on the reference store: identical outcome, revision, value and error text at every step; expiry sequences (one WaitExpiry at every position, bucket MaxAge 150ms) up to depth E; watchers opened before every position of every sequence up to depth W with two consumer styles (Updates() once / before every receive): received events equal the model's list, adapter goroutines gone after Stop. states = distinct (model state of the key, position), transitions = operations executed on both sides, traces_validated_against_impl = sequences replayed on the real adapter (all)",
 		Assume: []string{"single writer per bucket (the atomicity of JetStream's per-subject compare-and-set under concurrency is an assumption)", "an expiry that the server has not performed 3s after MaxAge+120ms makes the sequence inconclusive (counted), never an alarm"},
 		Direct: c14Direct,
 	}
